@@ -159,6 +159,8 @@ type asyncClient struct {
 	cb    abcicli.Callback
 	queue []*asyncEntry
 	m     *mpCase
+	enq   int // requests queued so far
+	ans   int // requests answered so far (FIFO)
 }
 
 type asyncEntry struct {
@@ -207,15 +209,11 @@ func (c *asyncClient) CheckTxAsync(req abci.RequestCheckTx) *abcicli.ReqRes {
 		return e.rr
 	}
 	c.mu.Lock()
-	if checkKind(req) == "recheck" {
-		c.g.mu.Lock()
-		e.name = "recheck:" + strconv.Itoa(c.g.nextRe)
-		c.g.nextRe++
-		c.g.mu.Unlock()
-	} else {
+	if checkKind(req) != "recheck" {
 		e.name = "check:" + strings.TrimPrefix(string(req.Tx), "c")
-	}
+	} // rechecks are labelled in queue order when the queue is observed
 	c.queue = append(c.queue, e)
+	c.enq++
 	c.mu.Unlock()
 	return e.rr
 }
@@ -230,9 +228,12 @@ func (c *asyncClient) FlushAsync() *abcicli.ReqRes {
 	return c.Client.FlushAsync()
 }
 
+// FlushSync returns when every request queued BEFORE it has been answered (the flush request
+// travels on the same FIFO connection)
 func (c *asyncClient) FlushSync() error {
 	c.mu.Lock()
-	for len(c.queue) > 0 {
+	target := c.enq
+	for c.ans < target {
 		c.cond.Wait()
 	}
 	c.mu.Unlock()
@@ -244,6 +245,12 @@ func (c *asyncClient) names() []string {
 	defer c.mu.Unlock()
 	var out []string
 	for _, e := range c.queue {
+		if e.name == "" {
+			c.g.mu.Lock()
+			e.name = "recheck:" + strconv.Itoa(c.g.nextRe)
+			c.g.nextRe++
+			c.g.mu.Unlock()
+		}
 		out = append(out, e.name)
 	}
 	return out
@@ -251,6 +258,7 @@ func (c *asyncClient) names() []string {
 
 // releaseHead answers the head of the queue if it has this name (goroutine named for the quiescence check)
 func (c *asyncClient) releaseHead(name string, m *mpCase) bool {
+	c.names()
 	c.mu.Lock()
 	if len(c.queue) == 0 || c.queue[0].name != name {
 		c.mu.Unlock()
@@ -268,6 +276,7 @@ func (m *mpCase) mpThreadAnswer(c *asyncClient, e *asyncEntry) {
 	c.answer(e)
 	c.mu.Lock()
 	c.queue = c.queue[1:]
+	c.ans++
 	c.cond.Broadcast()
 	c.mu.Unlock()
 }
@@ -284,6 +293,7 @@ func (c *asyncClient) drain() {
 		c.answer(e)
 		c.mu.Lock()
 		c.queue = c.queue[1:]
+		c.ans++
 		c.cond.Broadcast()
 		c.mu.Unlock()
 	}
